@@ -404,6 +404,59 @@ theorem C15_gen_counter_resets (s : State) :
 example : ({ init with numCreations := 2, numDeletions := 1 } : State) ≠ (step { init with numCreations := 2, numDeletions := 1 } .preTick).1 := by
   decide
 
+/-! ### the tick -/
+
+/-- **`Folder.apply_timestep` and `FileSystem.apply_timestep` as translated are the model's tick**, for every health of every folder:
+a folder's tick is `_restoring_timestep` (the scan and reveal steps and the files' own ticks are checked to be structurally inert by
+the extractor), and the file system ticks exactly its LIVE folders — a deleted folder's countdown stands still. -/
+theorem C15_gen_apply_timestep (s : State) (r : FolderRec) :
+    (folderApplyTimestep r).g = r.g.restoringTimestep ∧ fsApplyTimestep s = (step s .tick).1 ∧
+    (fsApplyTimestep s).deletedFolders = s.deletedFolders := by
+  refine ⟨(C15_gen_restoring_timestep r).1, ?_, rfl⟩
+  unfold fsApplyTimestep step
+  simp only
+  congr 1
+  apply List.map_congr_left
+  intro g _
+  exact (C15_gen_restoring_timestep { g := g }).1
+
+/-! ### construction and access -/
+
+/-- The file system before `__init__` runs its own statements: the pydantic defaults (empty dictionaries, counters 0 —
+`C15_gen_constants` —, no default durations), no uuid handed out yet. -/
+def blank : State :=
+  { folders := [], deletedFolders := [], folderRoutes := [], numCreations := 0, numDeletions := 0, next := 0, defaultRestore := none }
+
+/-- **`FileSystem.__init__` as translated yields the model's `init`**: a file system constructed without folders gets `root` from the
+translated `create_folder` (first uuid, route registered); one constructed WITH folders is left alone. `FileSystem.access_file` as
+translated answers whether the live file exists and changes nothing structural. -/
+theorem C15_gen_init_and_access (s : State) (F x : Name) :
+    fsInitMethod blank = init ∧ (s.folders ≠ [] → fsInitMethod s = s) ∧
+    fsAccessFile s F x = (s, (getFile s F x).isSome) := by
+  refine ⟨by decide, ?_, ?_⟩
+  · intro h
+    unfold fsInitMethod
+    cases hf : s.folders with
+    | nil => exact absurd hf h
+    | cons a l => simp [hf]
+  · unfold fsAccessFile getFile
+    cases getFolder s F false with
+    | none => rfl
+    | some g => dsimp only; cases g.getFile x false <;> rfl
+
+/-! ### the report -/
+
+/-- **`describe_state` of `FileSystem` and of `Folder` as translated are the model's `describe`**: one `folders` entry per live folder
+keyed by its name and holding that folder's own report, one `deleted_folders` entry per deleted folder, the two counters as stored;
+in a folder's report `files` / `deleted_files` keyed by file name from the live / deleted dictionary respectively. With
+`C15_describe_exact` (which is about `describe`): the reported state lists exactly the live and the deleted items — now a statement about
+the translated code. -/
+theorem C15_gen_describe_state (s : State) (g : Folder) :
+    folderDescribeState g = g.describe ∧ fsDescribeState s = describe s := by
+  refine ⟨rfl, ?_⟩
+  unfold fsDescribeState describe
+  rfl
+
 /-! ### non-vacuity -/
 
 /-- The translated `create_file` on concrete states: a new file in a new folder (folder and file get fresh uuids, one creation
